@@ -24,6 +24,18 @@ TEXT = {
          "Raft.tla with Crash/Restart, monitor clauses over persisted term/vote writes, replies and restarts.", "6 C08"),
  "C14": ("Crash of a real node immediately before/after any of its storage operations (image of the directory, restart through the constructors); "
          "monitors require construction/restart to succeed, no fatal abort, the replayed log to equal the reconstruction, and all safety clauses.", "6 C14"),
+ "C12": ("LogStore.tla models the log file at system-call grain (two writes per record, fsync, ftruncate, temp file + rename) with a crash between any two calls and inside a write; "
+         "TLC checks Recover/InMemoryIsReturned/FileDenotesLog exhaustively. On the code, operation programs run through the public Log API in a driver process that is killed by a real "
+         "SIGKILL on entry to every storage system call (strace fault injection), plus byte prefixes of interrupted appends; every image is reopened, extended and reopened again and the "
+         "directory histories are judged by StoreMon.tla (TLC) against StoreAbs.tla's Allowed set.", "6 C12, 12.6"),
+ "C13": ("FileStores.tla models SetState (tmp + rename) and snapshot writing (tmp directory, metadata, chunks, rename | discard) with crashes anywhere and the constructors' cleanup; TLC checks "
+         "Recover exhaustively. On the code: SIGKILL at every storage system call of SetState / snapshot programs (0 B to multi-chunk payloads, many snapshots per directory), reopen through the "
+         "constructors, judged by StoreMon.tla.", "6 C13, 12.6"),
+ "C15": ("Every scenario of the core and crash families ends with the fault-free period (all members restarted, prompt reliable network, free timers); the monitor requires one leader, a fresh "
+         "operation completed and every running member caught up within the bound (reported only if also missed at four times the bound).", "6 C15"),
+ "C18": ("Api.tla is the lifecycle automaton and call alphabet of the public API; TLC enumerates every call program up to the bound; each is executed on a real node steered into each role "
+         "(follower, pre-candidate, candidate, leader, created, stopped) and interleaved with cluster activity; monitors: no panic, no abort, futures resolve by their time-out, none stays "
+         "unresolved, a membership change that commits under its submitter succeeds.", "6 C18"),
  "C05": ("Read clauses (no stale read, reads do not go backwards) evaluated by TLC on recorded histories of linearizable reads racing with leader changes.", "6 C05"),
 }
 
